@@ -36,48 +36,71 @@ func tryReplay(cr *checkRun, r *OblResult, sr *SiteResult, rep map[string]interf
 	return false, "no replay template for this function family; the solver's model is attached in solver_output"
 }
 
+// batteryFor: which scenario battery instantiates the inputs a property's clauses quantify over.
+//   "<template>:<ENV>=<value>[,<value>...]"
 func batteryFor(prop string) string {
-	return map[string]string{"C03": "roundtrip", "C06": "torn", "C16": "torn", "C04": "positions"}[prop]
+	return map[string]string{
+		"C03": "fs_battery_test.go:VERIF_BATTERY=roundtrip",
+		"C06": "fs_battery_test.go:VERIF_BATTERY=torn",
+		"C16": "fs_battery_test.go:VERIF_BATTERY=torn",
+		"C04": "fs_battery_test.go:VERIF_BATTERY=positions",
+		"C01": "fs_model_test.go:VERIF_MODEL=rebuild",
+		"C02": "fs_model_test.go:VERIF_MODEL=tree",
+		"C12": "fs_model_test.go:VERIF_MODEL=tree",
+		"C13": "fs_model_test.go:VERIF_MODEL=tree",
+		"C14": "fs_model_test.go:VERIF_MODEL=file,flags",
+	}[prop]
 }
 
 var batteryCache = map[string][2]string{}
 
-// replayBattery: the failing clause talks about stream wiring, positions or ghost state, which has no direct rendering
-// as one byte-level input; the family of inputs the clause quantifies over (pipeline configurations x size classes,
-// cut offsets, histories x record sizes) is instantiated on the real code and searched for a concrete failing input.
+// replayBattery: the failing clause talks about stream wiring, positions, cursors or ghost state, which has no direct
+// rendering as one byte-level input; the family of inputs the clause quantifies over (pipeline configurations x size
+// classes, cut offsets, histories x record sizes, handle-call sequences x flags) is instantiated on the real code, next
+// to a reference where the property names one, and searched for a concrete failing input.
 func replayBattery(bat string, rep map[string]interface{}) (bool, string) {
-	tmpl := filepath.Join(verifDir, "replay", "templates", "fs_battery_test.go")
-	cmdline := "VERIF_BATTERY=" + bat + " /verif/tools/replay.sh " + repoDir() + " pkg/fs 'TestVerifReplay_Battery$' " + tmpl
-	rep["replay_cmd"] = cmdline
+	parts := strings.SplitN(bat, ":", 2)
+	tmplName, envSpec := parts[0], parts[1]
+	kv := strings.SplitN(envSpec, "=", 2)
+	tmpl := filepath.Join(verifDir, "replay", "templates", tmplName)
+	run := "TestVerifReplay_Battery$"
+	if tmplName == "fs_model_test.go" {
+		run = "TestVerifReplay_Model$"
+	}
+	rep["replay_cmd"] = kv[0] + "=<" + kv[1] + "> /verif/tools/replay.sh " + repoDir() + " pkg/fs '" + run + "' " + tmpl
 	if c, ok := batteryCache[bat]; ok {
 		rep["replay_output"] = c[1]
 		return c[0] != "", c[0]
 	}
-	ov := map[string]map[string]string{"Replace": {filepath.Join(repoDir(), "pkg/fs", "zz_verif_fs_battery_test.go"): tmpl}}
+	ov := map[string]map[string]string{"Replace": {filepath.Join(repoDir(), "pkg/fs", "zz_verif_"+tmplName): tmpl}}
 	ovFile := filepath.Join(scratchDir(), "overlay_battery.json")
 	b, _ := json.Marshal(ov)
 	os.WriteFile(ovFile, b, 0o644)
-	cmd := exec.Command("go", "test", "-overlay", ovFile, "-v", "-vet=off", "-count=1", "-timeout", "300s", "-run", "TestVerifReplay_Battery$", "./pkg/fs/")
-	cmd.Dir = repoDir()
-	cmd.Env = append(os.Environ(), "GOFLAGS=-mod=mod", "GOPROXY=off", "GOSUMDB=off", "GOTOOLCHAIN=local", "VERIF_BATTERY="+bat)
-	out, _ := cmd.CombinedOutput()
 	var lines []string
-	for _, l := range strings.Split(string(out), "\n") {
-		if strings.Contains(l, "FAILING-INPUT") || strings.HasPrefix(l, "panic:") {
-			lines = append(lines, strings.TrimSpace(l))
+	var raw string
+	for _, val := range strings.Split(kv[1], ",") {
+		cmd := exec.Command("go", "test", "-overlay", ovFile, "-v", "-vet=off", "-count=1", "-timeout", "300s", "-run", run, "./pkg/fs/")
+		cmd.Dir = repoDir()
+		cmd.Env = append(os.Environ(), "GOFLAGS=-mod=mod", "GOPROXY=off", "GOSUMDB=off", "GOTOOLCHAIN=local", kv[0]+"="+val)
+		out, _ := cmd.CombinedOutput()
+		raw += string(out)
+		for _, l := range strings.Split(string(out), "\n") {
+			if strings.Contains(l, "FAILING-INPUT") || strings.HasPrefix(l, "panic:") {
+				lines = append(lines, strings.TrimSpace(l))
+			}
 		}
 	}
 	text := truncate(strings.Join(lines, "\n"), 6000)
 	msg := ""
 	if len(lines) > 0 {
-		msg = "replayed on the real code: the " + bat + " battery finds concrete failing inputs, first: " + lines[0]
+		msg = "replayed on the real code: the " + envSpec + " battery finds concrete failing inputs, first: " + truncate(lines[0], 600)
 	} else {
-		text = truncate(string(out), 2000)
+		text = truncate(raw, 2000)
 	}
 	batteryCache[bat] = [2]string{msg, text}
 	rep["replay_output"] = text
 	if msg == "" {
-		return false, "the " + bat + " battery ran on the real code and found no concrete failing input among its cases; the obligation still fails (model attached)"
+		return false, "the " + envSpec + " battery ran on the real code and found no concrete failing input among its cases; the obligation still fails (model attached)"
 	}
 	return true, msg
 }
